@@ -38,6 +38,8 @@ ASSUMPTIONS = [
 REQUIRED_STATS = ['blocks_judged', 'ended_by_trigger', 'completed_first', 'till_runs']
 
 GRID = [0.5, 1, 1.5, 2, 2.5, 3, 3.5, 4, 5, 6]
+# inexact decimal dates among which  n + (d - n) != d  for many pairs n < d (see C08)
+DEC = [0.7, 0.8, 1.2, 2.9, 3.4, 3.9, 4.8, 5.3, 6.1]
 
 
 def n_cases(tier):
@@ -64,7 +66,8 @@ def gen_cond(rng, tasks, depth=0):
         kinds += ['and', 'or', 'and', 'or', 'inv']
     kind = rng.choice(kinds)
     if kind in ('ge', 'eq', 'lt'):
-        return {'k': kind, 't': rng.choice([0, 0.5, 1, 1.5, 2, 2.5, 3, 4, 5, 7])}
+        return {'k': kind, 't': rng.choice(DEC if getattr(rng, 'decimal', False)
+                                           else [0, 0.5, 1, 1.5, 2, 2.5, 3, 4, 5, 7])}
     if kind in ('instant', 'eternity'):
         return {'k': kind}
     if kind == 'flag':
@@ -149,7 +152,10 @@ def build(case):
     rng = random.Random('%s/%s/c07' % (case['seed'], case['index']))
     ids = Ids()
     objects = {'flags': 3, 'tracked': [0, 2]}
-    times = rng.sample(GRID, rng.randint(2, 6))
+    # a fifth of the scenarios live on an inexact decimal time grid
+    rng.decimal = case['index'] % 5 == 2
+    grid = DEC if rng.decimal else GRID
+    times = rng.sample(grid, rng.randint(2, 6))
     times.sort()
     n_tasks = rng.randint(0, 2)
     task_times = times[:n_tasks]
@@ -200,7 +206,7 @@ def build(case):
     n_subjects = rng.choice([1, 1, 2, 3])
     for number in range(n_subjects):
         steps = []
-        entry = rng.choice([0, 0, 0.5, 1, 1.5, 2, 3])
+        entry = rng.choice([0, 0.7, 0.8, 1.2, 2.9] if rng.decimal else [0, 0, 0.5, 1, 1.5, 2, 3])
         steps.append({'op': 'wait', 'n': {'k': 'ge', 't': entry} if entry else {'k': 'instant'},
                       'id': ids('w')})
         if rng.random() < 0.15:
@@ -235,7 +241,7 @@ def build(case):
         # a task that is cancelled before its first activation, by the body of a block that
         # waits for it: spawned by `spawner` in the turn before the subject enters
         # until(task.done) and cancels it - the block ends in that same time step
-        unused = [when for when in GRID if when not in times]
+        unused = [when for when in grid if when not in times]
         if unused:
             when = rng.choice(unused)
             roots.insert(0, {'name': 'spawner', 'steps': [
